@@ -1,6 +1,7 @@
 import Ufo2ftModel.Drv.GeomJ
 import Ufo2ftModel.Spec.C09
 import Ufo2ftModel.Spec.C09Hyp
+import Ufo2ftModel.Spec.C09Overflow
 namespace Ufo2ft.Drv.C09
 open Lean Ufo2ft Ufo2ft.Drv Ufo2ft.C09
 
@@ -81,7 +82,9 @@ def family (req : Json) : R Reply := do
       let clauses : List (String × Bool) := if !uniform then [("sparse", holdsSparse cfg.sparse (cfg.inst.map (·.defaultIdx)) cfg.skip src final)] else [
         ("compat", holdsCompat src final), ("compiled", holdsCompiled src compiled),
         ("joint", holdsJoint src final), ("sparse", holdsSparse cfg.sparse (cfg.inst.map (·.defaultIdx)) cfg.skip src final),
-        ("twoByTwo", !cfg.ttf || holdsTwoByTwo src final)]
+        ("twoByTwo", !cfg.ttf || holdsTwoByTwo src final),
+        -- the glyph pen's compile-time decomposition (a 2x2 entry beyond F2Dot14) is taken in all masters or in none
+        ("penJoint", !cfg.ttf || holdsPenJoint src final)]
       let failed := (clauses.filter (fun c => !c.2)).map (·.1)
       let info := Json.mkObj [("failed", strsJ failed), ("srcCompatible", Json.bool (compatible src)),
         ("srcCompCompatible", Json.bool (compCompatible src)),
